@@ -574,31 +574,53 @@ func ruleVariantDescends(c *Ctx, r *Report) {
 		call, ok := v.(*ssa.Call)
 		return ok && call.Call.IsInvoke() && call.Call.Method.Name() == "Arity"
 	}
-	// the arity comparison of the two sides, and the header of the loop over the arguments
-	var cmpBlock, argLoop *ssa.BasicBlock
-	var eqIdx int
-	for _, b := range fn.Blocks {
-		bo, ok := ifCond(b).(*ssa.BinOp)
-		if !ok {
-			continue
+	// the arity comparison of the two sides (as an instruction: inside `a || b` written as a switch case it is
+	// a value, not a branch condition), and the header of the loop over the arguments
+	var cmp *ssa.BinOp
+	var argLoop *ssa.BasicBlock
+	eachInstr(fn, func(in ssa.Instruction) {
+		if bo, ok := in.(*ssa.BinOp); ok && (bo.Op == token.NEQ || bo.Op == token.EQL) && isArityCall(bo.X) && isArityCall(bo.Y) {
+			cmp = bo
 		}
-		switch {
-		case (bo.Op == token.NEQ || bo.Op == token.EQL) && isArityCall(bo.X) && isArityCall(bo.Y):
-			cmpBlock = b
-			eqIdx = 1
-			if bo.Op == token.EQL {
-				eqIdx = 0
+	})
+	for _, b := range fn.Blocks {
+		if bo, ok := ifCond(b).(*ssa.BinOp); ok {
+			if (bo.Op == token.LSS && isArityCall(bo.Y)) || (bo.Op == token.GTR && isArityCall(bo.X)) {
+				argLoop = b
 			}
-		case bo.Op == token.LSS && isArityCall(bo.Y):
-			argLoop = b
 		}
 	}
 	key := fname(fn) + "/compound-pair"
-	if cmpBlock == nil || argLoop == nil {
+	if cmp == nil || argLoop == nil {
 		r.undecided(rule, key, c.Pos(fn.Pos()), desc, "the arity comparison or the loop over the arguments was not recognised")
 		return
 	}
-	start := cmpBlock.Succs[eqIdx]
+	cmpBlock := cmp.Block()
+	// where the arities are known equal: the frontier of the blocks that carry that fact
+	equalAt := func(b *ssa.BasicBlock) bool {
+		for f := range c.factsAt(b) {
+			if f.cond == ssa.Value(cmp) && f.pol == (cmp.Op == token.EQL) {
+				return true
+			}
+		}
+		return false
+	}
+	var starts []*ssa.BasicBlock
+	for _, b := range fn.Blocks {
+		if !equalAt(b) {
+			continue
+		}
+		for _, p := range b.Preds {
+			if !equalAt(p) {
+				starts = append(starts, b)
+				break
+			}
+		}
+	}
+	if len(starts) == 0 {
+		r.undecided(rule, key, c.Pos(fn.Pos()), desc, "no block is reached with the arities known equal")
+		return
+	}
 	// outer loop header: a block with a back edge that dominates cmpBlock
 	var H *ssa.BasicBlock
 	for _, b := range fn.Blocks {
@@ -638,7 +660,13 @@ func ruleVariantDescends(c *Ctx, r *Report) {
 		}
 		return false
 	}
-	if dfs(start) {
+	bad := false
+	for _, start := range starts {
+		if dfs(start) {
+			bad = true
+		}
+	}
+	if bad {
 		r.bad(rule, key, c.at(cmpBlock.Instrs[len(cmpBlock.Instrs)-1]), desc, "a pair with equal name and arity can return to the work list without its arguments having been paired: a subterm met a second time, next to a different partner, is taken for a variant unseen")
 	} else {
 		r.ok(rule, key, c.at(cmpBlock.Instrs[len(cmpBlock.Instrs)-1]), desc, "node-removal check: without the loop over the arguments the pair cannot get back to the work list", true)
